@@ -280,7 +280,8 @@ func (st *runState) client(sys *System, ci int, reqs []Req) {
 		}
 		var body *bytes.Reader
 		if method == "POST" {
-			body = bytes.NewReader([]byte(`{"start":946684800000,"end":946684860000,"labelSelector":"{service_name=\"x\"}","profileTypeID":"process_cpu:cpu:nanoseconds:cpu:nanoseconds","name":"a","matchers":["{a=\"b\"}"],"step":15}`))
+			// the handlers decode with encoding/json over the generated structs (snake_case tags); connect clients send camelCase
+			body = bytes.NewReader([]byte(`{"start":946684800000,"end":946684860000,"label_selector":"{service_name=\"x\"}","labelSelector":"{service_name=\"x\"}","profile_typeID":"process_cpu:cpu:nanoseconds:cpu:nanoseconds","profileTypeID":"process_cpu:cpu:nanoseconds:cpu:nanoseconds","name":"a","matchers":["{a=\"b\"}"],"label_names":["a"],"group_by":["a"],"step":15}`))
 		} else {
 			body = bytes.NewReader(nil)
 		}
@@ -395,6 +396,12 @@ func (st *runState) finish(ri *simcheck.RunInfo, sim *simrt.Sim, t0 time.Time, t
 		ri.Probes["status-"+fmt.Sprint(r.Status/100)+"xx"]++
 		ri.Probes["endpoint-"+r.Req.Kind]++
 		ri.Probes[fmt.Sprintf("%s-%dxx", r.Req.Kind, r.Status/100)]++
+		if os.Getenv("VERIF_DEBUG") == "sql" {
+			for _, q := range r.Stmts {
+				fmt.Fprintf(os.Stderr, "DBGSQL %s status=%d cols=%v :: %s\n", r.Req.Kind, r.Status, q.Cols, q.SQL)
+			}
+			fmt.Fprintf(os.Stderr, "DBGBODY %s status=%d %.600q\n", r.Req.Kind, r.Status, r.Body.String())
+		}
 		if os.Getenv("VERIF_DEBUG") != "" && r.Status >= 500 {
 			var errs []string
 			for _, s := range r.Stmts {
